@@ -102,7 +102,7 @@ def n1(model: Model, rep: Report):
         f_sup, f_uns = subst(F, {supported: TRUE}), subst(F, {supported: FALSE})
         if atoms_of_cond(F) - {supported}:
             bad.append(f"walk condition is not just 'supported': {show(F)[:160]}")
-        if f_uns != ("list", (ins,)):
+        if f_uns not in (("list", (ins,)), ("tuple", (ins,))):
             bad.append("an unsupported instruction is not passed through unchanged exactly once")
         ok_sup = f_sup[0] == "call" and isinstance(f_sup[1], tuple) and f_sup[1][0] == "attr" and f_sup[1][2] == "construct" and f_sup[1][1] == ("sub", ("attr", s, "factory_lookup"), name)
         if ok_sup:
@@ -328,6 +328,32 @@ def _wrap_form(bp, inner, block):
         if block_name is not None and init != block:
             problems.append(f"the wrap starts from {show(init) if init else None}, not from the block")
         return Q.term, q, noise, problems, (("after", block_name, Q.node.lineno) if block_name else None)
+    # three emit passes: for n in reversed(noise_list): emit n; for i in block: emit i; for n in noise_list: emit n  (noise_list = [noise(q) for q in Q],
+    # written as a comprehension or filled by an append loop before)
+    def _emits_own_element(L) -> bool:
+        if L.term is None or len(L.extra["paths"]) != 1 or atoms_of(L.extra["paths"][0].cond) or L.extra["paths"][0].exit not in ("fall", "continue"):
+            return False
+        el = ("bound", "for", L.node.lineno, show(L.term))
+        ap = [c for e in L.extra["paths"][0].events if e.kind == "effect" for c in find_calls(e.term, "append")]
+        return len(ap) == 1 and ap[0][2] == (el,)
+    emit_loops = [L for L in inner if _emits_own_element(L)]
+    if len(emit_loops) == 3 and emit_loops == inner[-3:]:
+        from ..listflow import as_single_comp
+        E1, E2, E3 = emit_loops
+        right = E3.term
+        left = E1.term
+        if not (left[0] == "call" and left[1] == "reversed" and len(left[2]) == 1 and left[2][0] == right):
+            problems.append(f"first pass {show(left)[:80]} is not the reversed last pass")
+        if E2.term != block:
+            problems.append(f"middle pass {show(E2.term)[:80]} is not the block")
+        rc = devar(as_single_comp(bp, right)) if right[0] == "var" else devar(right)
+        if rc[0] != "comp" or rc[1] != "list" or len(rc[3]) != 1 or rc[3][0][1]:
+            return None
+        q_dom = rc[3][0][0]
+        bs = subterms(rc[2], lambda x: x[0] == "bound" and x[3] == show(q_dom))
+        if len(bs) != 1:
+            return None
+        return q_dom, bs[0], rc[2], problems, E3.term
     if len(inner) == 1:
         # display: dressed = [*reversed(noise_list), *block, *noise_list] with noise_list = [noise(q) for q in Q]
         E = inner[0]
